@@ -19,7 +19,15 @@
      8 avoid / orphans / widows not honoured although a conforming break exists
      10 vertical positions of the units differ from the stacking model
      11 pagination differs from the model on the paginate_unique class
-     12 the implementation crashed / hung on the document *)
+     12 the implementation crashed / hung on the document
+     16 the bottom padding / border of a block that does not start the page overflows it
+        (13: only that of blocks that start / resume at the page top; 18: fits when the bottom
+        margins enclosed by such padding are not counted)
+     19 a page ends early and the content pushed to the next page has a block with bottom
+        padding / border that encloses a bottom margin of its last descendants (7: without that)
+     17 a page ends early, but not when "still fits" is judged with the room the second layout
+        of inFlowLayout reserves (bottom padding / border of a block reserved for all its
+        fragments); possibly together with the readings of 14 / 15 *)
 From Verif Require Export Layout.Paginate Layout.PaginateSpec.
 From Coq Require Import QArith List NArith ZArith Bool Arith.
 Import ListNotations.
@@ -39,6 +47,9 @@ Inductive case :=
 Section Reading.
 (* which reading of "change of named page" is used: true = CSS Page 3 *)
 Variable css_names : bool.
+(* true = "the content up to a later break would still fit" is judged with the bottomSpace
+   the second layouts of inFlowLayout reserve (Paginate.reserve) *)
+Variable retry_reading : bool.
 
 Definition i_ptype (p : ipage) : ptype := mkPT (i_side p) (i_blank p) (i_first p) (i_index p) (i_name p).
 Definition i_ids (p : ipage) : list nat := map iu_id (i_units p).
@@ -102,6 +113,38 @@ Definition first_failing (l : list (bool * N)) : N :=
   | None => 0%N
   end.
 
+(* the blocks opened on the page after its first unit that are still open at its last unit:
+   they are the innermost closers of that unit; the other closers belong to blocks that contain
+   the first unit of the page (they start or resume at the page top) *)
+Fixpoint open_in_range (d : nat) (l : list unit) : nat :=
+  match l with
+  | [] => d
+  | [u] => d + length (u_opens u)
+  | u :: r => open_in_range (d + length (u_opens u) - length (u_closes u)) r
+  end.
+
+(* stacking as the second layout of inFlowLayout sees it: a bottom margin enclosed by the bottom
+   padding / border of an ancestor is not counted when the children are placed again
+   (known deviation C12/block-pushed-when-margin-inside-bottom-padding-overflows) *)
+Definition scan1_nm (st : sst) (t : tok) : sst :=
+  match t with
+  | TC pb mb => if (0 <? pb)%Z then mkSst (s_y st + pb) (Z.max 0 mb) 0 else scan1 st t
+  | _ => scan1 st t
+  end.
+
+(* bottom edge of the page's content including the bottom padding / border of the blocks that
+   were opened on the page after its first unit only *)
+Definition extent_inner (scan : sst -> tok -> sst) (km : bool) (us : list unit) (s e : nat) : Z :=
+  match units_between us s e with
+  | [] => 0%Z
+  | u0 :: r =>
+      let d := match r with [] => 0 | _ => open_in_range 0 r end in
+      let last := unit_at us (e - 1) in
+      let outer := length (u_closes last) - Nat.min d (length (u_closes last)) in
+      let toks := page_toks us s e in
+      s_y (fold_left scan (firstn (length toks - outer) toks) (init_sst km))
+  end.
+
 Definition check_doc (d : doc) (ps : list ipage) : N :=
   let us := lin_flows (d_flow d) in
   if negb (forallb wf_flow (d_flow d) && forallb wf_unit_b us) then 2%N else
@@ -113,12 +156,32 @@ Definition check_doc (d : doc) (ps : list ipage) : N :=
   let forced := forced_at css_names us in
   let allowed := allowed_at us in
   let fits := fits_doc css_names d us in
+  let fits_r := if retry_reading then fits_retry css_names d us else fits in
   let all (f : pstate * nat * nat -> bool) := forallb f rs in
   (* the units themselves fit (only the padding / border of the blocks closing after the last one may not) *)
   let content_fits (r : pstate * nat * nat) :=
     let '(st, s, e) := r in
     Qle_bool (inject_Z (content_extent (keep_margins css_names us s) us s e))
              (page_height (d_rules d) (content_ptype css_names rtl us st s)) in
+  (* ... and so does the bottom padding / border of the blocks that do not start the page *)
+  let inner_fits (r : pstate * nat * nat) :=
+    let '(st, s, e) := r in
+    Qle_bool (inject_Z (extent_inner scan1 (keep_margins css_names us s) us s e))
+             (page_height (d_rules d) (content_ptype css_names rtl us st s)) in
+  let inner_nm_fits (r : pstate * nat * nat) :=
+    let '(st, s, e) := r in
+    Qle_bool (inject_Z (extent_inner scan1_nm (keep_margins css_names us s) us s e))
+             (page_height (d_rules d) (content_ptype css_names rtl us st s)) in
+  (* structural trigger of the known deviation "a bottom margin enclosed by the bottom padding /
+     border of a block is not counted by its second layout": between the end of the page and the
+     next forced break a block with bottom padding / border ends with a descendant that has a
+     bottom margin *)
+  let blocks := blocks_of us in
+  let mbpb_after (r : pstate * nat * nat) :=
+    let '(_, s, e) := r in
+    existsb (fun a => (e <=? b_first a) && (b_last a <? cap n forced s) && (0 <? b_dec a)%Z &&
+                      existsb (fun c => (0 <? c_mb c)%Z) (firstn (b_pos a) (u_closes (unit_at us (b_last a)))))
+            blocks in
   let content := filter (fun p => negb (match i_ids p with [] => true | _ => false end)) ps in
   let model := paginate css_names d in
   first_failing [
@@ -127,14 +190,17 @@ Definition check_doc (d : doc) (ps : list ipage) : N :=
     (forallb (fun p => geom_eqb (page_box_geometry (d_rules d) (i_ptype p)) p) ps, 1%N);
     (counters_b 0 (length ps) ps, 9%N);
     (all (forced_inside_free_b pstate forced), 5%N);
+    (all (fun r => no_avoidable_overflow_b pstate allowed fits r || negb (content_fits r) || inner_nm_fits r), 16%N);
+    (all (fun r => no_avoidable_overflow_b pstate allowed fits r || negb (content_fits r) || inner_fits r), 18%N);
     (all (fun r => no_avoidable_overflow_b pstate allowed fits r || negb (content_fits r)), 13%N);
     (all (no_avoidable_overflow_b pstate allowed fits), 6%N);
-    (all (no_early_end_b pstate n forced allowed fits), 7%N);
-    (all (soft_if_possible_b pstate n forced allowed fits), 8%N);
+    (all (fun r => no_early_end_b pstate n forced allowed fits_r r || mbpb_after r), 7%N);
+    (all (no_early_end_b pstate n forced allowed fits_r), 19%N);
+    (all (soft_if_possible_b pstate n forced allowed fits_r), 8%N);
     (list_eqb (fun (r : pstate * nat * nat) (p : ipage) =>
                  let '(_, s, e) := r in
                  positions_eqb (positions (keep_margins css_names us s) us s e) (i_units p)) rs content, 10%N);
-    (negb (all (conforming_exists_b pstate n forced allowed fits)) ||
+    (retry_reading || negb (all (conforming_exists_b pstate n forced allowed fits)) ||
        list_eqb (fun (m : page) (p : ipage) =>
                    ptype_eqb (pg_type m) (i_ptype p) && list_eqb Nat.eqb (pg_units m) (i_ids p)) model ps, 11%N)
   ].
@@ -160,13 +226,22 @@ Definition drop_nth_zero (d : doc) : doc :=
 Definition check (c : case) : N :=
   match c with
   | CDoc d ps =>
-      let k := check_doc true d ps in
+      let k := check_doc true false d ps in
       if N.eqb k 0 then 0%N
-      else if N.eqb (check_doc false d ps) 0 then 14%N
+      else if N.eqb (check_doc false false d ps) 0 then 14%N
       else let d' := drop_nth_zero d in
-           if N.eqb (check_doc true d' ps) 0 then 15%N
-           else let k' := check_doc false d' ps in
-                if N.eqb k' 0 then 15%N else k'
+           if N.eqb (check_doc true false d' ps) 0 then 15%N
+           else let k' := check_doc false false d' ps in
+                if N.eqb k' 0 then 15%N
+                else if N.eqb k' 7 || N.eqb k' 8 || N.eqb k' 19 then
+                  (* a page ends early / a soft constraint is broken: judged again with the
+                     room the second layouts of inFlowLayout reserve; what is left is named
+                     under that reading *)
+                  let kr := check_doc false true d' ps in
+                  if N.eqb (check_doc true true d ps) 0 || N.eqb (check_doc false true d ps) 0 ||
+                     N.eqb (check_doc true true d' ps) 0 || N.eqb kr 0
+                  then 17%N else kr
+                else k'
   | CCrash d => if forallb wf_flow (d_flow d) then 12%N else 2%N
   end.
 
